@@ -309,11 +309,13 @@ fn fam_format_boxed(ctx: &Ctx) {
             }
             // precision boundaries: a precision that is not a multiple of 64
             if n <= 6 || i % 11 == 0 {
-                let prec = 64 * n - 3;
-                for v in [pow2(prec), pow2(prec) - 1u32, pow2(64 * n), pow2(64 * n) - 1u32] {
-                    let s = v.to_str_radix(radix);
-                    cs.group();
-                    judge(&mut cs, "Boxed::from_str_radix_with_precision_vartime(64n-3)", &s, radix, Some(n), Some(prec), guard(|| res_b(BoxedUint::from_str_radix_with_precision_vartime(&s, radix, prec as u32))));
+                // 64n-3 (odd), and the byte-aligned but not limb-aligned precisions 64n-8, 64n-32, 64n-56
+                for prec in [64 * n - 3, 64 * n - 8, 64 * n - 32, 64 * n - 56] {
+                    for v in [pow2(prec), pow2(prec) - 1u32, pow2(64 * n), pow2(64 * n) - 1u32] {
+                        let s = v.to_str_radix(radix);
+                        cs.group();
+                        judge(&mut cs, "Boxed::from_str_radix_with_precision_vartime(non-limb precision)", &s, radix, Some(n), Some(prec), guard(|| res_b(BoxedUint::from_str_radix_with_precision_vartime(&s, radix, prec as u32))));
+                    }
                 }
             }
         });
